@@ -368,7 +368,7 @@ func run(e *core.Env) {
 	for s := 0; s < nSteps; s++ {
 		e.Step()
 		heads := cn.Heads()
-		w := []int{3, 0, 2, 2, 1}
+		w := []int{3, 0, 2, 2, 1, 1}
 		if len(heads) > 0 {
 			w[1] = 10
 		}
@@ -455,6 +455,42 @@ func run(e *core.Env) {
 				note("conn %d end %s: write errors from now on", p.ID, nm)
 				e.Fault("link_ioerr")
 			}
+		case 5: // a router with live links to P and Q learns a second, relayed route to P over Q
+			// (what Q's forwarding of P's announcement produces): P's direct-peer route must stay
+			var cand [][3]int
+			for i := range S {
+				ls := S[i].Node.Peering.GetLinks()
+				for _, lp := range ls {
+					for _, lq := range ls {
+						if lp != lq && !lp.IsClosing() && !lq.IsClosing() {
+							if pi, ok := byIP[lp.Peer()]; ok {
+								if qi, ok := byIP[lq.Peer()]; ok {
+									cand = append(cand, [3]int{i, pi, qi})
+								}
+							}
+						}
+					}
+				}
+			}
+			if len(cand) == 0 {
+				continue
+			}
+			c := cand[tp.Intn(len(cand))]
+			r, p, q := S[c[0]].Node, S[c[1]].Node, S[c[2]].Node
+			lq := r.Peering.GetLink(q.IP)
+			if lq == nil {
+				continue
+			}
+			_, err := r.Router.Table().AddRoute(m.RoutingTableEntry{
+				DstIP: p.IP, NextHop: q.IP, Source: m.RouteSourceGossip, Expires: time.Now().Add(10 * time.Minute),
+				Path: m.SwitchPath{Hops: []m.SwitchHop{
+					{Router: r.IP, ForwardLabel: lq.SwitchLabel(), Delay: 1},
+					{Router: q.IP, ForwardLabel: m.SwitchLabel(1 + tp.Intn(100)), ReturnLabel: m.SwitchLabel(1 + tp.Intn(100)), Delay: 1},
+					{Router: p.IP, ReturnLabel: m.SwitchLabel(1 + tp.Intn(100))},
+				}},
+			})
+			note("r%d learns a relayed route to r%d over r%d (%v)", c[0], c[1], c[2], err)
+			e.Probe("relayed_route_to_a_direct_peer_learned")
 		case 4: // traffic over a live link (also reveals the remote link object)
 			var live []*known
 			for _, k := range links {
